@@ -97,6 +97,23 @@ func (f *frame) doCall(cm *ssa.CallCommon, pos token.Pos, st *State, b *ssa.Basi
 	for _, a := range cm.Args {
 		args = append(args, f.val(a))
 	}
+	if !inRepo(callee) {
+		// a function literal handed to a library function (regexp.ReplaceAllStringFunc, sort.Slice, ...) may be
+		// called by it any number of times: everything the literal (transitively) may write is havocked
+		for _, a := range args {
+			if a.Fn == nil {
+				continue
+			}
+			ws := g.WriteSetOf(a.Fn)
+			if ws.Top {
+				f.havocAll(st)
+			} else {
+				f.havocHeaps(st, ws.Sorted())
+			}
+			f.havocNext(st)
+			c.assumed["a function literal passed to a library function is called only during that call (zero or more times); its inferred write set is havocked at the call, its body is not checked for panics"] = true
+		}
+	}
 	if ext, ok := externals[callee.String()]; ok {
 		return ext(f, cm, args, st, name, resT, pos)
 	}
